@@ -81,7 +81,7 @@ Section Top.
     destruct Hdec as [Hu|Hnu].
     - unfold debug_cfg_of in Hc. unfold derive_debug_shape. rewrite Hu in *.
       cbn in Hc. inversion Hc; subst c.
-      destruct v as [| | | | | |vn xs| | | |]; try reflexivity.
+      destruct v as [| | | | | |vn xs| | | | |]; try reflexivity.
       destruct vn as [vn|]; [reflexivity|].
       cbn. rewrite sappend_nil_r. reflexivity.
     - apply same_program_same_string. exact (same_as_derive F traits d p c v Hc Hp Hwf Hnu).
